@@ -213,6 +213,8 @@ def run(ctx):
             if M.callee_name(c).startswith("ruma_identifiers_validation::") and len(c["args"]) == 2 and c["args"][1].get("k") == "const":
                 consts.add(c["args"][1].get("v"))
         ctx.check(byte in consts, "C10.constants", f"C10.constants:sigil:{mod}", w.where(fv), bad_msg=f"sigil byte passed by {mod}::validate is {consts}, expected {byte} ({chr(byte)!r})")
+    server_name_rules(ctx, w)
+    length_rules(ctx, w)
     if ctx.tier == "thorough":
         from .. import witness
         witness.check(ctx, "C10.witness", {"C10FromBorrowed": "UserId::from_borrowed is callable from another crate: identifiers can be created without validation", "C10FromBox": "RoomAliasId::from_box is callable from another crate: identifiers can be created without validation"})
@@ -232,3 +234,114 @@ def is_string_build(body, op):
 def U_ret(effect):
     name, args = effect[0], effect[1]
     return D.sym(f"{D.short_name(name)}({', '.join(D.show(a) for a in args)})")
+
+
+def server_name_rules(ctx, w):
+    """C10.server_name: the decision table of server_name::validate (DEX) against the grammar named in the property:
+    non-empty hostname; optional port of 1-5 digits; and agreement with the accessor ServerName::port()."""
+    ctx.rule("C10.server_name", "server_name::validate accepts only if (a) the hostname part is non-empty (an explicit test excludes end_of_host == 0 on the "
+                                "`host:port` branch; bracketed and port-less forms are non-empty by construction), (b) a port, when present, passes an "
+                                "all-ASCII-digit test and a length <= 5 test, and (c) it parses as the integer type that ServerName::port() unwraps")
+    f = w.fn("ruma_identifiers_validation::server_name::validate")
+    # private helpers of the validator module are inlined so that a check moved into a helper looks the same
+    dex = D.Dex(w.lookup, adt_discr=w.adt_discr, effects=lambda n: True,
+                inline=lambda n: n.startswith("ruma_identifiers_validation::server_name::") and "{closure" not in n)
+    paths = dex.paths(f, [D.sym("s")])
+    okp = [p for p in paths if p.kind == "ret" and not U.is_err(p.ret)]
+    ctx.floor("server_name::validate accepting paths", len(okp), 3)
+    bad_kinds = [p for p in paths if p.kind not in ("ret",)]
+    ctx.check(not bad_kinds, "C10.server_name", "C10.server_name:total", w.where(f), bad_msg=f"validate has non-returning paths: {[p.kind for p in bad_kinds]}")
+
+    def parse_types(fn):
+        out = []
+        mod = fn["path"].rsplit("::", 1)[0] if fn["path"].startswith("ruma_identifiers_validation::") else fn["path"]
+        fns = [g for g in w.crates[fn["path"].split("::")[0]].all_fns() if (g["path"] == fn["path"] or g["path"].startswith(mod + "::")) and "body" in g]
+        for body in [b for g in fns for b in M.all_bodies(g)]:
+            for bi, c in M.calls(body):
+                if M.callee_name(c).endswith("::parse") and "str" in M.callee_name(c):
+                    out.append((c.get("fnargs") or ["?"])[0])
+        return out
+    acc = w.fn("ruma_common::identifiers::server_name::ServerName::port")
+    acc_ty = parse_types(acc)
+    ctx.check(len(acc_ty) == 1, "C10.server_name", "C10.server_name:accessor-parse", w.where(acc), bad_msg=f"ServerName::port parses {acc_ty}")
+    val_ty = parse_types(f)
+
+    for i, p in enumerate(okp):
+        atoms = [(D.show_atom(a).replace(" < ", "<"), v) for a, v in p.conds]   # order atoms are printed as `a < b`
+        txt = dict(atoms)
+        bracket = txt.get("str::starts_with(s, '[')") is True
+        has_colon = txt.get("str::find(s, ':') is Some") is True
+        form = "bracket" if bracket else ("host:port" if has_colon else "host")
+        has_port = any(a.endswith("[]==58") and v for a, v in atoms)
+        # (a) non-empty hostname
+        if form == "host:port":
+            e = re.escape("str::find(s, ':').Some.0")
+            pats = [(rf"^{e}==0$", False), (rf"^0=={e}$", False), (rf"^0<{e}$", True), (rf"^{e}<1$", False), (rf"^{e}>0$", True), (rf"^{e}>=1$", True),
+                    (rf"^str::is_empty\(traits::index\(s, RangeTo::RangeTo\(end={e}\)\)\)$", False), (r"^str::starts_with\(s, ':'\)$", False)]
+            good = any(re.match(pt, a) and v is val for a, v in atoms for pt, val in pats)
+            ctx.check(good, "C10.server_name", f"C10.server_name:nonempty-host:{form}:{'port' if has_port else 'noport'}", w.where(f),
+                      bad_msg="an accepting path of the `host:port` form has no test that the hostname before ':' is non-empty: e.g. `:8080` "
+                              "(and `@user::8080`) is accepted; the property requires a non-empty hostname")
+        else:
+            ctx.ok("C10.server_name", f"C10.server_name:nonempty-host:{form}:{'port' if has_port else 'noport'}", w.where(f),
+                   "non-empty by construction (whole non-empty string, or bracketed literal)")
+        # (b), (c) the port
+        if has_port:
+            ports = [a for a, v in atoms if a.startswith("str::parse(traits::index(s, RangeFrom") and a.endswith(" is Ok") and v]
+            ctx.check(len(ports) == 1 and acc_ty and acc_ty[0] in val_ty, "C10.server_name", f"C10.server_name:port-parse:{form}", w.where(f),
+                      ok_msg=f"port slice parses as {acc_ty[0] if acc_ty else '?'}, the type ServerName::port() unwraps",
+                      bad_msg=f"accepting path with a port does not require str::parse::<{acc_ty[0] if acc_ty else '?'}> of the port slice to succeed "
+                              f"(validate parses {val_ty}); ServerName::port() unwraps that parse and would panic")
+            P = r"traits::index\(s, RangeFrom::RangeFrom\(start=.*\)\)"
+            digit = False
+            for a, v in p.conds:
+                sa = D.show_atom(a)
+                m = re.match(rf"^Iterator::all\(str::bytes\({P}\), closure\[(.+)\]\)$", sa)
+                if m and v is True:
+                    clo = w.lookup(m.group(1))
+                    names = {M.callee_name(c).rsplit("::", 1)[-1] for b in M.all_bodies(clo) for _, c in M.calls(b)} if clo else set()
+                    digit = digit or names == {"is_ascii_digit"}
+            length = any(re.match(rf"^str::len\({P}\)(>5|>=6)$", a) and v is False or re.match(rf"^str::len\({P}\)(<=5|<6)$", a) and v is True or
+                         re.match(rf"^(5<|6<=)str::len\({P}\)$", a) and v is False or re.match(rf"^RangeInclusive::contains\(.*str::len\({P}\)", a) and v is True
+                         for a, v in atoms)
+            ctx.check(digit and length, "C10.server_name", f"C10.server_name:port-digits:{form}", w.where(f),
+                      bad_msg=f"accepting path with a port lacks {'an all-ASCII-digit test' if not digit else ''}{' and ' if not digit and not length else ''}"
+                              f"{'a length <= 5 test' if not length else ''} on the port slice: e.g. `example.org:+80` / `example.org:000080` are accepted; "
+                              "the property allows only a port of 1-5 digits")
+
+
+SIGILS = {"user_id": 64, "room_id": 33, "room_alias_id": 35, "event_id": 36}
+
+
+def length_rules(ctx, w):
+    """C10.length: every accepting path of the validators of sigil identifiers passes through validate_id(whole input, sigil) == Ok,
+    the one place that enforces the leading sigil and the 255-byte limit (C10.constants checks validate_id itself)."""
+    IV = "ruma_identifiers_validation::"
+    ctx.rule("C10.length", "user/room/alias/room-or-alias/event ID validators: every accepting path has validate_id(input, sigil) == Ok "
+                           "(crate-local helpers inlined), with the sigil of that identifier type; so no form of the identifier escapes the sigil and "
+                           "255-byte tests")
+    dex = D.Dex(w.lookup, adt_discr=w.adt_discr, effects=lambda n: True,
+                inline=lambda n: n.startswith(IV) and "{closure" not in n and n not in (IV + "validate_id", IV + "server_name::validate"))
+    n_ok = 0
+    for mod in ["user_id", "room_id", "room_alias_id", "room_id_or_alias_id", "event_id"]:
+        f = w.fn(f"{IV}{mod}::validate")
+        want = {SIGILS[mod]} if mod in SIGILS else {33, 35}
+        forms = {}
+        for p in dex.paths(f, [D.sym("s")]):
+            if p.kind != "ret":
+                ctx.violation("C10.length", f"C10.length:{mod}:{p.kind}", w.where(f), f"{mod}::validate has a {p.kind} path")
+                continue
+            if U.is_err(p.ret):
+                continue
+            n_ok += 1
+            tv = U.true_variants(p)
+            vids = [(D.show(e[1][0]), D.show(e[1][1])) for e in p.effects if e[0] == IV + "validate_id"]
+            good = [v for v in vids if v[0] == "s" and v[1].isdigit() and int(v[1]) in want and tv.get(f"{IV}validate_id(s, {v[1]})") == "Ok"]
+            colon = any(e[0] == IV + "server_name::validate" for e in p.effects)
+            key = f"C10.length:{mod}:{'with-server-name' if colon else 'opaque'}:{good[0][1] if good else 'none'}"
+            forms[key] = bool(good)
+        for key, good in sorted(forms.items()):
+            ctx.check(good, "C10.length", key, w.where(f),
+                      bad_msg=f"an accepting path of {mod}::validate does not pass through validate_id(input, sigil): that form of the identifier is "
+                              f"accepted without the 255-byte limit (e.g. `$` followed by 300 characters and no colon)")
+    ctx.floor("identifier accepting paths", n_ok, 7)
